@@ -8,4 +8,6 @@ From TG.Model Require Import Chars LineIndex.
 Extraction Language OCaml.
 Extraction "extract/lines_core.ml"
   bytes encode pos_of off_of
-  li_new to_proto_position to_proto_range from_proto_position from_proto_range.
+  li_new to_proto_position to_proto_range from_proto_position from_proto_range
+  to_proto_folding_range to_proto_inlay_hint_position to_proto_location_range to_proto_diagnostic_range
+  to_proto_document_link_range to_proto_document_symbol_range.
